@@ -129,6 +129,73 @@ def work(p):
     return res.out()
 
 
+def work_short_blocks(p):
+    """Many short tracing blocks in ONE process, each with a fresh tracer (one block per request, as a service would): the call at
+    position i of the block must be traced in about 1/N of the blocks - independently per block, through trace_calls and monkeytype.trace."""
+    import monkeytype
+    from monkeytype.config import Config
+    from monkeytype.tracing import CallTraceLogger, trace_calls
+
+    res = core.Res()
+    src = "\n\n".join(f"def h{i}(v):\n    return v" for i in range(8)) + "\n"
+    fname = "/vfshort/" + p["tag"] + ".py"
+    ns = {"__name__": "vfshort_" + p["tag"]}
+    exec(compile(src, fname, "exec"), ns)  # noqa: S102
+    fns = [ns[f"h{i}"] for i in range(8)]
+
+    class L(CallTraceLogger):
+        def __init__(self):
+            self.names = []
+
+        def log(self, t):
+            self.names.append(t.func.__name__)
+
+    class Cfg(Config):
+        def __init__(self, lg, rate):
+            self.lg, self.rate = lg, rate
+
+        def trace_store(self):
+            raise NotImplementedError
+
+        def trace_logger(self):
+            return self.lg
+
+        def code_filter(self):
+            return lambda code: code.co_filename == fname
+
+        def sample_rate(self):
+            return self.rate
+
+    B = p["blocks"]
+    for api in ("trace_calls", "trace-config"):
+        for rate in p["rates"]:
+            counts = [0] * 8
+            patterns = set()
+            for _ in range(B):
+                lg = L()
+                ctx = trace_calls(lg, 0, lambda code: code.co_filename == fname, rate) if api == "trace_calls" else monkeytype.trace(Cfg(lg, rate))
+                with ctx:
+                    for f in fns:
+                        f(1)
+                for nm in lg.names:
+                    counts[int(nm[1:])] += 1
+                patterns.add(tuple(lg.names))
+            res.count("evaluations")
+            res.count("short_block_series")
+            res.count("short_blocks", B)
+            pr = 1.0 / rate
+            sigma = math.sqrt(B * pr * (1 - pr))
+            wit = {"api": api, "rate": rate, "blocks": B, "counts": counts, "distinct_patterns": len(patterns)}
+            res.shape(f"short|{api}|{rate}")
+            off = [(i, c) for i, c in enumerate(counts) if abs(c - B * pr) > 6 * sigma + 1]
+            if off:
+                res.violation(f"sampling-decisions-repeat-across-blocks:rate{rate}", f"{api}, rate {rate}: call #{off[0][0]} of a block traced in {off[0][1]} of {B} blocks, "
+                              f"expected {B * pr:.0f} +- {6 * sigma:.0f} (per-position counts {counts}, {len(patterns)} distinct block outcomes)", wit)
+            elif len(patterns) < min(B, 2 ** 8) // 8:
+                res.violation(f"sampling-decisions-repeat-across-blocks:rate{rate}", f"{api}, rate {rate}: only {len(patterns)} distinct outcomes over {B} blocks", wit)
+    return res.out()
+
+
 def run(ck):
     quick = ck.tier == "quick"
     nprog = 300 if quick else 3000
@@ -161,6 +228,9 @@ def run(ck):
     payloads = [{"programs": pin}] + [{"programs": [lp]} for lp in loops] + [{"programs": sp[i::n]} for i in range(n)]
     for r in core.pmap("vf.props.c18:work", payloads, timeout=3400):
         ck.merge(r)
+    for r in core.pmap("vf.props.c18:work_short_blocks", [{"tag": f"{ck.seed}_{j}", "blocks": 400 if quick else 3000, "rates": [2, 3] if j % 2 == 0 else [5, 2]} for j in range(2 if quick else 8)], timeout=1200):
+        ck.merge(r)
+    ck.need("short_blocks", 1000)
     # traced fraction of plain calls against binomial bounds (6 sigma)
     fractions = {}
     allrates = sorted({int(k_[4:].split(":")[0]) for k_ in ck.counters if k_.startswith("rate") and k_.endswith(":plain_must_calls") and k_[4:].split(":")[0].isdigit()})
